@@ -196,6 +196,8 @@ def eqS (s : St) : Val → Val → Nat → EqRes
     else eqS s va vb ta
   | .num a, .num b, _ => .ofBool (a == b)
   | .pair a b, .pair c d, _ => .ofBool (a == c && b == d)
+  | .flt a, .flt b, _ => .ofBool (a.isSome && a == b)                         -- NaN != NaN
+  | .cplx a b, .cplx c d, _ => .ofBool (a.isSome && b.isSome && a == c && b == d)
   | .str a, .str b, _ => .ofBool (a == b)
   | .ref a, .ref b, _ => .ofBool (a == b)
   | _, _, _ => .ff
